@@ -64,7 +64,7 @@ def impl_trace(l1, l2, ts_list, normalize=False, force=False):
             try:
                 oe = orbital.OrbitElements(tle)
             except Exception as e:  # noqa
-                out["init"] = "exc-elements:" + type(e).__name__
+                out["init"] = classify_init_exc(e) if isinstance(e, orbital.OrbitalError) else "exc-elements:" + type(e).__name__
                 return out
             out["elements"] = {"eo": oe.excentricity, "xincl": oe.inclination, "xnodeo": oe.right_ascension,
                                "omegao": oe.arg_perigee, "xmo": oe.mean_anomaly, "xn_0": oe.mean_motion,
@@ -158,7 +158,7 @@ def parse_model(line):
 
 def cmp_val(name, a, b, scale=1.0, rel=1e-11):
     if name in ANGLES:
-        return lib.angle_close(a, b, 1e-10) or lib.close(a, b, scale, rel)
+        return lib.angle_close(a, b, max(1e-10, 10 * rel * max(1.0, abs(a)))) or lib.close(a, b, scale, rel)
     return lib.close(a, b, scale, rel)
 
 
@@ -197,6 +197,9 @@ def compare(impl, model, loose=False):
             continue
         if pi != "ok":
             continue
+        # huge secular angles (diverged drag polynomial far from epoch) amplify ulp differences of sin/cos arguments
+        big = max(abs(sm.get("xlt", 0.0)), abs(sm.get("xnode", 0.0)), abs(sm.get("xmp", 0.0)), 1.0)
+        rel_s = rel * max(1.0, big / 1.0e3)
         for k, v in si.items():
             if k == "prop" or k not in sm:
                 continue
@@ -205,6 +208,6 @@ def compare(impl, model, loose=False):
                 scale = math.sqrt(sm["px"] ** 2 + sm["py"] ** 2 + sm["pz"] ** 2)
             if k in ("vx", "vy", "vz"):
                 scale = math.sqrt(sm["vx"] ** 2 + sm["vy"] ** 2 + sm["vz"] ** 2)
-            if not cmp_val(k, v, sm[k], scale, rel=rel):
+            if not cmp_val(k, v, sm[k], scale, rel=rel_s):
                 bad.append(("step%d" % i, k, v, sm[k]))
     return bad
